@@ -60,8 +60,12 @@ def run(ctx):
                 "(entries 0/1) and int8 (entries 100,127,-128,2): sum/prod/min/max/mean over 2..3 arrays, int8 add/multiply "
                 "(wrap modulo 256), batched sum/prod/min/max; plus NEGATIVE axis/dim (-1..-rank; stack: -1..-(rank+1)) for the "
                 "one-array reductions, stack, concat, take with integer and sequence indices (normalised by the spec as "
-                "NumPy does) - on the array-API backend for all of them, on the xarray backend for take only (its "
-                "reductions/concat name the dimension; its stack with a negative axis is left out, see assumptions); "
+                "NumPy does) - on the array-API backend for all of them, on the xarray backend for take and stack (its "
+                "reductions/concat name the dimension); plus arguments of MIXED RANK (0-d, 1-d, 2-d broadcastable, families "
+                "(),(2),(2,2) and (),(3),(2,3), every ordered list of 2..3 with two different ranks): stack at every axis "
+                "-(R+1)..R on both backends, add/subtract/multiply on both, sum/prod/min/max/mean on the xarray backend (the "
+                "array-API backend does not define them for ragged arguments), reference NumPy on the broadcast arguments, "
+                "xarray results compared by dimension NAME with the new dimension at the requested position; "
                 "each case evaluated on numpy "
                 "arrays and on DataArrays; non-trivial = more than one element involved; batchability of each variadic "
                 f"function decided by TLC on 1..{consts['BatchArgs']} arguments, every composition into consecutive batches",
@@ -86,8 +90,8 @@ def run(ctx):
         "values are exact small integers/rationals; a float is read back as the rational with denominator "
         "<= 4096 within 1e-9",
         "std is compared squared (sign kept); a batch of one argument is handed on unchanged, as fluent.reduce does",
-        "XArrayBackend.stack(axis<0) is NOT in the judged domain: on this tree it places the new dimension one position "
-        "too early (axis=-1 -> second to last) where np.stack counts from the end of the RESULT; proposed fix "
-        "proposed_fixes/C15_xarray_stack_negative_axis.diff - once applied, drop \"stack\" from arrays_io.XR_AXIS_BY_NAME",
+        "mixed-rank arguments: shapes are suffixes of the largest (no size-1 broadcasting, which xarray does not do by name); "
+        "the harness names an argument's dimensions by their position in the broadcast shape; concat of arrays of different "
+        "rank and array-API multi-argument reductions of ragged arguments have no NumPy value and are not in the domain",
         "xarray objects are DataArrays without coordinates; Dataset and the earthkit FieldList backend are not covered",
     ]
